@@ -65,8 +65,8 @@ def selftest(ctx):
                 e["released"] = [ip]
                 return evs
 
-    return pipeline.corruption_selftest(ctx, P, [("other_handle", other_handle), ("stale_seq", stale_seq), ("no_cooldown", no_cooldown),
-                                                 ("report_released", report_released)], n_random=25)
+    return pipeline.corruption_selftest(ctx, P, _ipam.fresh([("other_handle", other_handle), ("stale_seq", stale_seq), ("no_cooldown", no_cooldown),
+                                                 ("report_released", report_released)]), n_random=25)
 
 
 MANIFEST = dict(
